@@ -684,3 +684,78 @@ def _inequalities(model, extra):
                 if holds and not rel:
                     return {"confirmed": True, "literal": str(lit), "recorded_as": f"{x} {'!=' if opn == 'NotEqual' else '<'} {y}", "assignment": {k: str(v) for k, v in asg.items()}}
     return {"confirmed": False, "body": [str(b) for b in body]}
+
+
+# ---------------------------------------------------------------------------------------------
+# C12: end-to-end referee (clingo) for one (function, guards, sign) combination taken from the counter-model
+OPSTR = {"Equal": "=", "NotEqual": "!=", "LessThan": "<", "LessEqual": "<=", "GreaterThan": ">", "GreaterEqual": ">="}
+SIGNSTR = {"NoSign": "", "Negation": "not ", "DoubleNegation": "not not "}
+
+
+def _first_minmax(model_rule):
+    body = (model_rule or {}).get("body") or []
+    for b in body:
+        if isinstance(b, dict) and b.get("ast") == "Literal" and isinstance(b.get("atom"), dict) and b["atom"].get("ast") == "BodyAggregate":
+            if b["atom"].get("function") in ("Min", "Max"):
+                return b
+    return None
+
+
+def _minmax_end_to_end(lit, known_classes=()):
+    from native.witnesses import models, optimise
+
+    atom = lit["atom"]
+    f = "#min" if atom["function"] == "Min" else "#max"
+    lg, rg = atom.get("left_guard"), atom.get("right_guard")
+    left = f"T {OPSTR[lg['comparison']]} " if lg else ""
+    right = f" {OPSTR[rg['comparison']]} 2" if rg else ""
+    sign = SIGNSTR[lit["sign"]]
+    problems = []
+    for choice in ("{p(1..3)}.", "{p(2)}.", "p(1). {p(3)}."):
+        prg = f"{choice} q(0..4). a(T) :- q(T), {sign}{left}{f}{{X : p(X)}}{right}. #show a/1. #show p/1."
+        try:
+            new = optimise(prg, ["minmax_chains"])
+        except Exception as e:  # pylint: disable=broad-except
+            problems.append({"program": prg, "exception": repr(e)})
+            continue
+        a, b = models(prg), models(new)
+        if a != b:
+            problems.append({"program": prg, "optimised": new, "source_answer_sets": len(a), "result_answer_sets": len(b), "first_difference": [x for x in a if x not in b][:1] + [x for x in b if x not in a][:1]})
+    return problems
+
+
+@mirror("process_rule")
+def _process_rule(model, extra):
+    lit = _first_minmax(model.get("rule"))
+    if lit is None:
+        return {"confirmed": False, "why": "no #min/#max aggregate in the counter-model"}
+    problems = _minmax_end_to_end(lit)
+    return {"confirmed": bool(problems), "combination": {"function": lit["atom"]["function"], "sign": lit["sign"], "left": (lit["atom"].get("left_guard") or {}).get("comparison"), "right": (lit["atom"].get("right_guard") or {}).get("comparison")}, "problems": problems[:2]}
+
+
+@mirror("replace_orig")
+def _replace_orig(model, extra):
+    lit = model.get("agg")
+    if not isinstance(lit, dict) or not isinstance(lit.get("atom"), dict):
+        return {"confirmed": False}
+    lit = dict(lit)
+    lit["atom"] = dict(lit["atom"])
+    if lit["atom"].get("function") not in ("Min", "Max"):
+        lit["atom"]["function"] = "Max"
+    if lit["sign"] != "NoSign":
+        return {"confirmed": False, "why": "negated aggregate: recorded known finding C12-replace-orig-drops-sign"}
+    problems = _minmax_end_to_end(lit)
+    return {"confirmed": bool(problems), "problems": problems[:2]}
+
+
+@mirror("minmax_agg")
+def _minmax_agg(model, extra):
+    from ngo.minmax_aggregates import MinMaxAggregator
+
+    rule = build(model["rule"])
+    mm = MinMaxAggregator([], [])
+    r = mm._minmax_agg(rule)  # pylint: disable=protected-access
+    if r is None:
+        return {"confirmed": False}
+    ok = r in list(rule.body) and r.ast_type == A.ASTType.Literal and r.atom.ast_type == A.ASTType.BodyAggregate and r.atom.function in (A.AggregateFunction.Min, A.AggregateFunction.Max)
+    return {"confirmed": not ok, "result": str(r)}
